@@ -103,6 +103,11 @@ func New(opt Options) (*Stack, error) {
 	if opt.TimeoutMs == 0 {
 		opt.TimeoutMs = 2000
 	}
+	// the emulator's own process environment is where the function's credentials normally are (docker run -e ...):
+	// the init request is built from them
+	os.Setenv("AWS_ACCESS_KEY_ID", "AKIDEXAMPLE")
+	os.Setenv("AWS_SECRET_ACCESS_KEY", "secret")
+	os.Setenv("AWS_SESSION_TOKEN", "session")
 	r := rec.New()
 	root, err := os.MkdirTemp("", "verif-root-")
 	if err != nil {
@@ -390,7 +395,7 @@ func (s *Stack) Invoke(caller int, payload []byte, label string, clientCtx, trac
 	res.Class = s.classify(res.Body)
 	s.Rec.Emit(fmt.Sprintf("caller:%d", caller), "InvokeRet", "caller", caller, "k", k, "payload", label, "err", res.Err,
 		"status", res.Status, "body", res.Class, "size", len(res.Body), "durMs", res.DurMs,
-		"ctype", w.hdr.Get("Content-Type"))
+		"ctype", w.hdr.Get("Content-Type"), "etype", w.hdr.Get("Error-Type"))
 	return res
 }
 
@@ -613,10 +618,19 @@ func (s *Stack) RtResponse(p *Proc, who, idClass string, body []byte, hdr map[st
 	id := s.ResolveID(idClass)
 	lbl := s.noteBody(body, "")
 	cid := s.Rec.Emit(a, "RespCall", "who", a, "gen", gen(p), "id", idClass, "reqid", id, "size", len(body), "body", lbl,
-		"slow", hdr["X-Verif-Slow-Body"], "abort", hdr["X-Verif-Abort-Body"] != "")
+		"slow", hdr["X-Verif-Slow-Body"], "abort", hdr["X-Verif-Abort-Body"] != "", "mode", modeClass(hdr["Lambda-Runtime-Function-Response-Mode"]))
 	r := s.do(p, "POST", "/2018-06-01/runtime/invocation/"+id+"/response", hdr, body)
 	s.Rec.Emit(a, "RespRet", "cid", cid, "who", a, "gen", gen(p), "id", idClass, "reqid", id, "status", r.Status, "errType", r.ErrType, "net", r.NetErr)
 	return r
+}
+
+// modeClass: the response-mode header of a /response request - absent, "streaming", or anything else (refused)
+func modeClass(v string) string {
+	switch v {
+	case "", "streaming":
+		return v
+	}
+	return "bad"
 }
 
 func (s *Stack) RtError(p *Proc, who, idClass, errType string, body []byte, hdr map[string]string) CallResult {
